@@ -99,6 +99,21 @@ def steer(case):
             {'name': 'code', 'kind': 'ostr', 'cells': vals},
             {'name': 'i', 'kind': 'int64', 'cells': list(range(len(vals)))}]}
         case['inc_rex'] = True
+    if case['frame']['n'] % 2 == 1:
+        # nanosecond-resolution columns whose latest and earliest instants
+        # are not whole microseconds
+        for c in case['frame']['cols']:
+            nn = [v for v in c['cells'] if v is not None]
+            if c['kind'] == 'dt64ns' and nn:
+                def key(v):
+                    return F.parse_dt(v)
+                hi, lo = max(nn, key=key), min(nn, key=key)
+
+                def ns(v, digits):
+                    return (v if '.' in v else v + '.000000') + digits
+                c['cells'] = [ns(v, '789') if v == hi and len(v) <= 26
+                              else ns(v, '001') if v == lo and len(v) <= 26
+                              else v for v in c['cells']]
     if case.pop('avoid_known'):
         for c in case['frame']['cols']:
             if c['kind'] in F.TZ_KINDS:
@@ -180,6 +195,10 @@ def run(case, ctx):
         with open(path, 'w', encoding='utf-8') as f:
             f.write(text)
         handed = path
+        if desc['n'] % 2 == 0:
+            import pathlib
+            handed = pathlib.Path(path)     # any os.PathLike names a file
+            out.label('path-object')
     else:
         handed = d
 
